@@ -345,10 +345,15 @@ def run_jac(project, tdir, rates="havoc", nsystem=1, with_physics=False, data_ov
         got = {}
 
         def copy_to_device(M_, st_, a):
-            got["rowptrs"] = (a[2], st_.objsize(a[2].obj))
-            got["colvals"] = (a[3], st_.objsize(a[3].obj))
-            got["rp_cells"] = st_.cells(a[2].obj)
-            got["cv_cells"] = st_.cells(a[3].obj)
+            for nm, ptr in (("rowptrs", a[2]), ("colvals", a[3])):
+                size = st_.objsize(ptr.obj)
+                got[nm] = (ptr, size - ptr.off)
+                cells = {}
+                for o in range(0, size - ptr.off, 4):
+                    raw = st_.load(ptr.obj, ptr.off + o)
+                    hasw = any(st_.load(ptr.obj, ("w", ptr.off + o - b)) for b in (0, 4))
+                    cells[o] = M_.load(st_, Ptr(ptr.obj, ptr.off + o), "i32") if (raw is not None or hasw) else None
+                got["rp_cells" if nm == "rowptrs" else "cv_cells"] = cells
             return st_, 0
 
         M.stubs["SUNMatrix_cuSparse_CopyToDevice"] = copy_to_device
